@@ -20,13 +20,13 @@ let rec int_of_pos (p : positive) : int =
 let int_of_z (x : z) : int =
   match x with Z0 -> 0 | Zpos p -> int_of_pos p | Zneg p -> - (int_of_pos p)
 
-let parse_line (s : string) : z list =
-  let toks = String.split_on_char ' ' s in
-  List.fold_right (fun t acc -> if t = "" then acc else z_of_int (int_of_string t) :: acc) toks []
+let parse_line s : z list =
+  let toks = Stdlib.String.split_on_char ' ' s in
+  Stdlib.List.fold_right (fun t acc -> if t = "" then acc else z_of_int (int_of_string t) :: acc) toks []
 
 let print_diag tag lineno (d : z list) =
   print_string tag; print_char ' '; print_int lineno;
-  List.iter (fun x -> print_char ' '; print_int (int_of_z x)) d;
+  Stdlib.List.iter (fun x -> print_char ' '; print_int (int_of_z x)) d;
   print_newline ()
 
 let () =
@@ -36,7 +36,7 @@ let () =
      while true do
        let s = input_line stdin in
        incr lineno;
-       if String.length s > 0 && s.[0] <> '#' then begin
+       if Stdlib.String.length s > 0 && s.[0] <> '#' then begin
          incr n;
          let l = parse_line s in
          if mode <> "monitor" then begin
